@@ -629,6 +629,23 @@ def discharge_auto(ctx, site):
                     ok_ = False
                 if ok_:
                     return "A2", "slice bound is a counter from 0 incremented only under counter < len(base): counter <= len(base)"
+        # base[s..min(s + c, len(base))] under a guard len(base) >= s (+ k): start <= end <= len(base)
+        if ix is not None and is_agg(ix) and ix[1].split("::")[-1] == "Range":
+            d_ = dict(ix[3])
+            st_, en_ = d_.get("start"), d_.get("end")
+            e_ = unwrap_ovf(strip(en_)) if en_ is not None else None
+            if st_ is not None and e_ is not None and e_[0] == "call" and e_[2].split("::")[-1] == "min" and len(e_[3]) == 2:
+                parts_ = [unwrap_ovf(strip(x_)) for x_ in e_[3]]
+                has_len = any(x_[0] == "len" and same(x_[1], base) for x_ in parts_)
+                grows = any(x_[0] == "bin" and x_[1] == "Add" and (same(x_[2], st_) or same(x_[3], st_)) for x_ in parts_)
+                guarded = False
+                for op, a, b in F():
+                    if op in ("Ge", "Gt") and a is not None and b is not None and a[0] == "len" and same(a[1], base):
+                        ub_ = unwrap_ovf(b)
+                        if same(ub_, st_) or (ub_[0] == "bin" and ub_[1] == "Add" and (same(ub_[2], st_) or same(ub_[3], st_))):
+                            guarded = True
+                if has_len and grows and guarded:
+                    return "A2", "slice start..min(start + c, len(base)) under the guard len(base) >= start"
         # constant bounds inside a buffer of constant length
         if ix is not None and is_agg(ix) and ix[1].split("::")[-1] in ("RangeTo", "RangeFrom", "Range", "RangeInclusive", "RangeToInclusive"):
             L = const_len(ctx, fa, base)
@@ -647,6 +664,20 @@ def discharge_auto(ctx, site):
             L, v = const_len(ctx, fa, site.ops[0]), ev(ctx, site.ops[1])
             if L is not None and v is not None and v <= L:
                 return "A1", "split point %d within a buffer of constant length %d" % (v, L)
+        if site.detail == "copy_from_slice" and len(site.ops) == 2:
+            def fixed_len(t_):
+                t_ = strip(t_)
+                for x_ in subterms(t_):
+                    if isinstance(x_, tuple) and len(x_) == 4 and x_[0] == "call" and x_[2].split("::")[-1] in ("chunks_exact", "chunks_exact_mut") and len(x_[3]) == 2 and term_sig_(t_).startswith("some(next("):
+                        return ev(ctx, x_[3][1])
+                if t_[0] == "call" and t_[2].split("::")[-1] in ("to_le_bytes", "to_be_bytes", "to_ne_bytes"):
+                    import re as _re
+                    m_ = _re.search(r"impl [ui](\d+)>", t_[2])
+                    return int(m_.group(1)) // 8 if m_ else None
+                return const_len(ctx, fa, t_)
+            la, lb = fixed_len(site.ops[0]), fixed_len(site.ops[1])
+            if la is not None and la == lb:
+                return "A1", "copy_from_slice between two slices of constant length %d" % la
         if site.detail in ("chunks", "chunks_exact", "chunks_mut", "chunks_exact_mut", "windows", "step_by") and len(site.ops) > 1:
             v = ev(ctx, site.ops[1])
             if v is not None and v > 0:
